@@ -859,27 +859,44 @@ func ruleC02(c *Ctx) {
 				continue
 			}
 			nR6++
-			// the parse call itself is one tree-changing operation when it is not inlined
-			base := parsed.TreeEpoch
-			if parsed.Kind == EvCall {
-				base++
-			}
-			if first.TreeEpoch == base {
-				c.ok("C02-R6", shortFn(res.Root), "parsed tree unchanged up to the root signature check", c.P.InstrPos(first.Instr), "no tree-changing operation between parseResponse and dsig Validate")
-			} else {
-				culprit := ""
-				for _, e := range t.St.events {
-					if e.Seq > parsed.Seq && e.Seq < first.Seq && e.Kind == EvCall && e.TreeEpoch >= base && culprit == "" {
-						for _, e2 := range t.St.events {
-							if e2.Seq > e.Seq && e2.TreeEpoch > e.TreeEpoch {
-								culprit = shortName(e.Callee) + " at " + c.P.InstrPos(e.Instr)
-								break
+			// a tree-changing call (mutating etree contract, or an external callee without a contract) that is handed a node
+			// of the parsed tree — not a copy of one
+			var culprit *Event
+			for _, e := range t.St.events {
+				if e.Seq <= parsed.Seq || e.Seq >= first.Seq || e.Kind != EvCall || culprit != nil {
+					continue
+				}
+				if e.CalleeFn != nil && c.P.inModule(e.CalleeFn) {
+					if !moduleTreePure(c.P, e.CalleeFn, map[*ssa.Function]bool{}) {
+						for _, a := range e.Args {
+							if a != nil && touchesParsed(a, 0) {
+								culprit = e
 							}
 						}
 					}
+					continue
 				}
-				o := c.bad("C02-R6", shortFn(res.Root), "parsed tree unchanged up to the root signature check", c.P.InstrPos(first.Instr),
-					"the message tree is changed between parsing and the root-level signature check ("+culprit+"): what goxmldsig examines is not what was received, so a present signature can go unnoticed")
+				ct := lookupContract(e.Callee)
+				if ct != nil && !ct.TreeMutator {
+					continue
+				}
+				for i, a := range e.Args {
+					if a == nil || !mayPointTo(a.Type()) {
+						continue
+					}
+					if ct == nil && i == 0 && (pluginRecv(a) || pluginHook(a)) {
+						continue
+					}
+					if touchesParsed(a, 0) {
+						culprit = e
+					}
+				}
+			}
+			if culprit == nil {
+				c.ok("C02-R6", shortFn(res.Root), "parsed tree unchanged up to the root signature check", c.P.InstrPos(first.Instr), "no tree-changing operation reaches the parsed tree between parseResponse and dsig Validate")
+			} else {
+				o := c.bad("C02-R6", shortFn(res.Root), "parsed tree unchanged up to the root signature check", c.P.InstrPos(culprit.Instr),
+					"the message tree is changed between parsing and the root-level signature check ("+shortName(culprit.Callee)+" is handed a node of the parsed tree): what goxmldsig examines is not what was received, so a present signature can go unnoticed")
 				o.Path = t.pathDesc(c.P)
 			}
 		}
@@ -1672,4 +1689,48 @@ func validatorCone(c *Ctx) map[*ssa.Function]bool {
 		out[f] = true
 	}
 	return out
+}
+
+
+// touchesParsed: v is (a node of) the tree parseResponse returned — reached without going through a copy.
+func touchesParsed(v Val, depth int) bool {
+	if v == nil || depth > 8 {
+		return false
+	}
+	switch x := stripIface(v).(type) {
+	case *CallV:
+		sn := shortName(x.Callee)
+		if sn == "parseResponse" {
+			return true
+		}
+		if strings.HasSuffix(sn, ").Copy") || sn == "etreeutils.NSDetatch" || sn == "etree.NewDocument" || sn == "etree.NewElement" {
+			return false
+		}
+		for _, a := range x.Args {
+			if touchesParsed(a, depth+1) {
+				return true
+			}
+		}
+	case *FieldV:
+		return touchesParsed(x.X, depth+1)
+	case *IndexV:
+		return touchesParsed(x.X, depth+1)
+	case *LoadV:
+		return touchesParsed(x.Addr, depth+1)
+	case *FieldAddrV:
+		return touchesParsed(x.X, depth+1)
+	case *IndexAddrV:
+		return touchesParsed(x.X, depth+1)
+	case *SliceV:
+		return touchesParsed(x.X, depth+1)
+	case *IterElemV:
+		return touchesParsed(x.Root, depth+1)
+	case *TupleV:
+		for _, e := range x.Vals {
+			if touchesParsed(e, depth+1) {
+				return true
+			}
+		}
+	}
+	return false
 }
